@@ -129,7 +129,7 @@ def run(ctx):
     # 3. negative control: binding demonstration
     t_neg = os.path.join(wd, "neg.ndjson")
     vlib.harness("c17", ["free", 300, t_neg], env={"C17_STUB": "line1"})
-    neg_v = vlib.Verdicts(PID)
+    neg_v = vlib.Verdicts(PID, control=True)
     neg_v.known = []
     neg_ev = vlib.Evidence(PID, tier, "model_checking")
     _, neg_rej = validate(wd, "negative-control", t_neg, "free", neg_ev, neg_v)
